@@ -339,13 +339,16 @@ func (o *C15Oracle) Check(ctx *core.Ctx, ev *Event) {
 					ctx.Fail(clause, "after pin;…;unpin of %s pin counter of %s (id %d) is %d, before the pin it was %d", f.Spec, k[:8], rn.ids[k], ev.After.Pin[k], fr.pins[k])
 				}
 			} else {
-				// non-nested order: drop the frame; the frames below it are no longer comparable
+				// non-nested order (or the unpin of a pinned UPLOAD, which has no frame): the frames
+				// from this reference's frame upwards — all of them if it has none — are no longer comparable
+				cut := 0
 				for i := range o.stack {
 					if o.stack[i].spec == f.Spec {
-						o.stack = o.stack[:i]
+						cut = i
 						break
 					}
 				}
+				o.stack = o.stack[:cut]
 			}
 		case 404:
 			if o.last[f.Spec] == "pin" {
